@@ -497,6 +497,8 @@ const maxInt = int(^uint(0) >> 1)
 // bitStorage returns the number of bits needed to store the number.
 func bitStorage(v uint32) int { return 32 - bits.LeadingZeros32(v) }
 
+// roundf rounds halves up, as HarfBuzz does : floorf(x + .5f), computed on 32 bits
+// ([math.Round] rounds them away from zero)
 func roundf(f float32) Position {
-	return Position(math.Round(float64(f)))
+	return Position(math.Floor(float64(f + 0.5)))
 }
